@@ -3,14 +3,15 @@ import PymtlVerif.Model.Mem
 /-!
 Handler `mem`: executable face of `Model/Mem.lean` for the C18 correspondence check.
 
-  mem seq <nb> <image> <log> <dump>
+  mem seq <image> <log> <dump>
       image = ((base b0 b1 ...) ...)            initial bytes (0 elsewhere)
-      log   = ((port type opq addr len data) ...)   processed requests, oldest first
+      log   = ((port nb type opq addr len data) ...)   processed requests, oldest first; nb = bytes of the data
+                                                field of the port's message class (ports may differ)
       dump  = (base size)
       reply: (<resp>*) (<byte>*)                 resp = (port type opq test len data), `seqSpec`
-  mem cl  <nports> <nb> <latency> <image> <reqs> <env> <dump>
-  mem rtl <nports> <nb> <extra_latency> <image> <reqs> <env> <dump>
-      reqs = per port ((type opq addr len data) ...)
+  mem cl  <nports> <latency> <image> <reqs> <env> <dump>
+  mem rtl <nports> <extra_latency> <image> <reqs> <env> <dump>
+      reqs = per port ((nb type opq addr len data) ...)
       env  = per cycle (code per port), code = offer/srcVal + 2*stall + 4*sinkRdy
       reply: ((cycle port) ...) (per port ((cycle type opq test len data) ...)) (<byte>*) (<left per port>*)
              = processing order with cycles, deliveries to each sink with cycles, final image,
@@ -28,18 +29,19 @@ def amoOp? : Nat → Option AmoOp
 def kind? : Nat → Option Kind
   | 0 => some .read | 1 => some .write | n => (amoOp? n).map .amo
 
-def req? (nb : Nat) : List Sexp → Option Req
-  | [t, o, a, l, d] => do
+def req? : List Sexp → Option Req
+  | [w, t, o, a, l, d] => do
+    let nb ← w.nat?
     let k ← kind? (← t.nat?)
     let len ← l.nat?
     match k with
     | .amo _ => if len != 0 && len != nb then none else pure ()
     | _ => pure ()
-    some ⟨k, ← o.nat?, ← a.nat?, len, ← d.nat?⟩
+    some ⟨k, ← o.nat?, ← a.nat?, len, ← d.nat?, nb⟩
   | _ => none
 
-def tagged? (nb : Nat) : Sexp → Option (Nat × Req)
-  | .list (p :: rest) => do some (← p.nat?, ← req? nb rest)
+def tagged? : Sexp → Option (Nat × Req)
+  | .list (p :: rest) => do some (← p.nat?, ← req? rest)
   | _ => none
 
 def image? (x : Sexp) : Option (List (Nat × Array Nat)) := do
@@ -63,11 +65,11 @@ def dump? : Sexp → Option (Nat × Nat)
   | .list [b, s] => do some (← b.nat?, ← s.nat?)
   | _ => none
 
-def reqs? (nb : Nat) (x : Sexp) : Option (Array (List Req)) := do
+def reqs? (x : Sexp) : Option (Array (List Req)) := do
   let ps ← x.list?
   let ls ← ps.mapM fun p => do
     let rs ← p.list?
-    rs.mapM fun r => do req? nb (← r.list?)
+    rs.mapM fun r => do req? (← r.list?)
   some ls.toArray
 
 def env? (x : Sexp) : Option (Array (Array Nat)) := do
@@ -96,7 +98,7 @@ def record (n t : Nat) (out : Out) (newLog : List (Nat × Req))
       o := { o with deliv := o.deliv.modify i (·.push s!"({t} {showResp r})") }
   return o
 
-def runCL (n nb lat : Nat) (m0 : Store) (reqs : Array (List Req)) (env : Array (Array Nat))
+def runCL (n lat : Nat) (m0 : Store) (reqs : Array (List Req)) (env : Array (Array Nat))
     (d : Nat × Nat) : String := Id.run do
   let envf : Nat → Nat → CL.Env := fun t i =>
     let c := code env t i
@@ -104,7 +106,7 @@ def runCL (n nb lat : Nat) (m0 : Store) (reqs : Array (List Req)) (env : Array (
   let mut s := CL.init lat (fun i => reqs.getD i []) m0
   let mut out : Out := { deliv := Array.replicate n #[] }
   for t in List.range env.size do
-    let s' := CL.cycle n nb (envf t) s
+    let s' := CL.cycle n (envf t) s
     let s0 := s
     out := record n t out (s'.log.drop s0.log.length)
       (fun i => (s'.ports i).delivered.drop (s0.ports i).delivered.length)
@@ -113,7 +115,7 @@ def runCL (n nb lat : Nat) (m0 : Store) (reqs : Array (List Req)) (env : Array (
   let left := (List.range n).map fun i => (reqs.getD i []).length - (procs i sf.log).length
   return finish n out sf.store d left
 
-def runRTL (n nb extra : Nat) (m0 : Store) (reqs : Array (List Req)) (env : Array (Array Nat))
+def runRTL (n extra : Nat) (m0 : Store) (reqs : Array (List Req)) (env : Array (Array Nat))
     (d : Nat × Nat) : String := Id.run do
   let envf : Nat → Nat → RTL.Env := fun t i =>
     let c := code env t i
@@ -121,7 +123,7 @@ def runRTL (n nb extra : Nat) (m0 : Store) (reqs : Array (List Req)) (env : Arra
   let mut s := RTL.init extra (fun i => reqs.getD i []) m0
   let mut out : Out := { deliv := Array.replicate n #[] }
   for t in List.range env.size do
-    let s' := RTL.cycle n nb (envf t) s
+    let s' := RTL.cycle n (envf t) s
     let s0 := s
     out := record n t out (s'.log.drop s0.log.length)
       (fun i => (s'.ports i).delivered.drop (s0.ports i).delivered.length)
@@ -132,18 +134,15 @@ def runRTL (n nb extra : Nat) (m0 : Store) (reqs : Array (List Req)) (env : Arra
 
 def handle (args : List Sexp) : Option String :=
   match args with
-  | [.atom "seq", nb, img, .list log, d] => do
-    let nb ← nb.nat?
-    let lg ← log.mapM (tagged? nb)
+  | [.atom "seq", img, .list log, d] => do
+    let lg ← log.mapM tagged?
     let d ← dump? d
-    let r := runLog nb lg (mkStore (← image? img))
+    let r := runLog lg (mkStore (← image? img))
     some ("(" ++ " ".intercalate (r.1.map fun e => s!"({e.1} {showResp e.2})") ++ ") " ++ dumpStr r.2 d.1 d.2)
-  | [.atom "cl", n, nb, lat, img, reqs, env, d] => do
-    let nb ← nb.nat?
-    some (runCL (← n.nat?) nb (← lat.nat?) (mkStore (← image? img)) (← reqs? nb reqs) (← env? env) (← dump? d))
-  | [.atom "rtl", n, nb, ex, img, reqs, env, d] => do
-    let nb ← nb.nat?
-    some (runRTL (← n.nat?) nb (← ex.nat?) (mkStore (← image? img)) (← reqs? nb reqs) (← env? env) (← dump? d))
+  | [.atom "cl", n, lat, img, reqs, env, d] => do
+    some (runCL (← n.nat?) (← lat.nat?) (mkStore (← image? img)) (← reqs? reqs) (← env? env) (← dump? d))
+  | [.atom "rtl", n, ex, img, reqs, env, d] => do
+    some (runRTL (← n.nat?) (← ex.nat?) (mkStore (← image? img)) (← reqs? reqs) (← env? env) (← dump? d))
   | [.atom "amo", w, t, m, a] => do
     some (toString (amoFun (← w.nat?) (← amoOp? (← t.nat?)) (← m.nat?) (← a.nat?)))
   | _ => none
